@@ -42,6 +42,7 @@ class World(object):
         self.crash_before = None      # mutation number
         self.crash_after = None
         self.fail_put = None
+        self.fail_put_keys = []       # substrings of keys whose puts fail persistently (outlasting client retries)
         self.list_calls = 0
         self.get_calls = 0
         self.observers = []           # callables(seq, op, key) invoked after every mutation (concurrent readers)
@@ -63,6 +64,9 @@ class World(object):
         n = len(self.log)
         if self.crash_before is not None and n == self.crash_before:
             raise SimCrash('crash before mutation %d (%s %s)' % (n, op, key))
+        if op == 'put' and self.fail_put_keys and any(part in key for part in self.fail_put_keys):
+            self.log.append((n, 'put-failed', bucket, key, owner))
+            raise InjectedS3Error('injected: put_object keeps failing (%s)' % key)
         if op == 'put' and self.fail_put is not None and n == self.fail_put:
             self.fail_put = None
             self.log.append((n, 'put-failed', bucket, key, owner))
